@@ -285,6 +285,13 @@ def gen_ws_cases(rng, tier, wsframe):
                 msgs.append(d)
             cuts = sorted(set(rng.randrange(1, len(out)) for _ in range(rng.choice([0, 1, 2, 5]))))
             cases.append(Case("ws-rx", "wsrx %s 0 %s %s %d -" % (role, hx(out), cuts_str(cuts), len(msgs)), "wsrx", expect=msgs))
+        # the frame-length encodings' boundaries, as whole frames (7-bit / 16-bit / 64-bit length forms)
+        for total in (125, 126, 127, 65535, 65536):
+            for hl in (0, 4):
+                if total > 1000 and hl == 4 and q:
+                    continue
+                h, b = rbytes(rng, hl), rbytes(rng, total - hl)
+                cases.append(Case("ws-tx-boundary", "wstx %s 0 %s 1" % (role, "%s:%s" % (h.hex(), b.hex())), "wstx", expect=[h + b]))
         for i in range(10 if q else 200):
             fs = rng.choice([0, 0, 1, 4, 125, 126, 1000])
             msgs = [(rbytes(rng, rng.choice([0, 4, 8, 64])), rbytes(rng, rng.choice(SIZES + ([65535, 65536, 70000] if i < 2 else []))))
